@@ -150,6 +150,14 @@ def factor_idx(f):
         return f[2]
     if f[0] == "D":
         return (f[1], f[2])
+    if f[0] == "P":
+        # Polynom.idx: the indices of all terms of the polynomial (with multiplicity), sorted canonically
+        inner = Poly(dict(f[1]))
+        out = []
+        for m, _ in inner.monos():
+            for s, n in idx_counter(m):
+                out.extend([s] * (n + 1))
+        return tuple(sorted(out, key=ix_key))
     return ()
 
 
@@ -220,6 +228,47 @@ class Poly:
                 if k % 2:
                     out = out * Poly.factor(("S", p), e)
             p += 1
+        return out
+
+    @staticmethod
+    def unexpanded(p, e=1):
+        """The polynomial p kept as ONE factor (p)**e of a product (a sympy Add / Pow(Add, e) inside a Mul)."""
+        if len(p.t) < 2:
+            return p ** e
+        return Poly.factor(("P", tuple(sorted(p.t.items()))), e)
+
+    def expand(self):
+        """sympy's expand(): positive powers of polynomial factors are multiplied out (recursively), a polynomial
+        denominator (p)**-1 stays one factor."""
+        out = Poly()
+        for m, c in self.t.items():
+            q = Poly.num(c)
+            for f, e in m:
+                if f[0] == "P":
+                    inner = Poly(dict(f[1])).expand()
+                    if e > 0:
+                        q = q * (inner ** e)
+                    elif e == -1:
+                        q = q * Poly.unexpanded(inner, e)
+                    else:
+                        raise ModelError("ModelLimit", "power of a polynomial denominator")
+                else:
+                    q = q * Poly.factor(f, e)
+            out = out + q
+        return out
+
+    def has_unexpanded(self):
+        return any(f[0] == "P" for m in self.t for f, _ in m)
+
+    def tensors_inside(self):
+        """All tensor factors (bases), also those inside polynomial factors."""
+        out = set()
+        for m in self.t:
+            for f, _ in m:
+                if f[0] in ("A", "N"):
+                    out.add(f)
+                elif f[0] == "P":
+                    out |= Poly(dict(f[1])).tensors_inside()
         return out
 
     # algebra
@@ -303,7 +352,10 @@ class Poly:
         for m, c in self.t.items():
             p = Poly.num(c)
             for fac, e in m:
-                p = p * (rebuild(fac, f) ** e)
+                r = rebuild(fac, f)
+                if r.is_zero() and e < 0:
+                    raise ModelError("ZeroDivisionError", "vanishing denominator")
+                p = p * (r ** e)
                 if p.is_zero():
                     break
             out = out + p
@@ -361,6 +413,8 @@ def rebuild(fac, f):
     if fac[0] == "D":
         v, g = mk_delta(f(fac[1]), f(fac[2]))
         return Poly.num(v) if g is None else Poly.factor(g)
+    if fac[0] == "P":
+        return Poly.unexpanded(Poly(dict(fac[1])).subst(f))
     return Poly.factor(fac)
 
 
@@ -377,6 +431,8 @@ def show_factor(f):
         return f"delta({show_ix(f[1])},{show_ix(f[2])})"
     if f[0] == "S":
         return f"sqrt({f[1]})"
+    if f[0] == "P":
+        return "(" + repr(Poly(dict(f[1]))) + ")"
     return str(f[1])
 
 
@@ -570,6 +626,6 @@ def canon_dummies(p: Poly, targets):
 
 
 def contraction_equal(p: Poly, q: Poly, targets):
-    a = canon_dummies(eval_deltas(p, targets), targets)
-    b = canon_dummies(eval_deltas(q, targets), targets)
+    a = canon_dummies(eval_deltas(p.expand(), targets), targets)
+    b = canon_dummies(eval_deltas(q.expand(), targets), targets)
     return a == b, a, b
